@@ -26,3 +26,27 @@ def check_label_suffix(R, F):
         ok = 'Name::eq_or_subdomain_of' in sq and any('Class' in x and x.endswith('eq') for x in sq)
     R.require(ok, 'label-suffix', 'db::single_zone_catalog|lookup', sz.where() if sz else '', 'SingleZoneCatalog::lookup = class test and eq_or_subdomain_of(entry name)', 'SingleZoneCatalog::lookup does not select by class and Name::eq_or_subdomain_of')
     R.floor('label-suffix', 2)
+
+
+def check_case_folding_callers(R, F):
+    """ASCII case folding is applied to name LABELS only: the octet-level case-insensitive comparison / lower-casing
+    primitives are called only from Label (eq, cmp, hash), from the writer's compression scan (label against label) and
+    from Name::make_ascii_lowercase.  In particular no RDATA comparison folds case outside the embedded names, so
+    integer fields that happen to hold letter-range octets stay significant."""
+    allowed_prefixes = ('<name::label::Label as ', 'name::label::', 'name::Name::make_ascii_lowercase', "message::writer::Writer::<'a>::write_compressed_unhinted_name",
+                        'name::lowercase::')
+    prims = ('core::slice::ascii::<impl [u8]>::eq_ignore_ascii_case', 'core::slice::ascii::<impl [u8]>::make_ascii_lowercase', 'core::slice::ascii::<impl [u8]>::to_ascii_lowercase',
+             'core::num::<impl u8>::to_ascii_lowercase', 'core::num::<impl u8>::eq_ignore_ascii_case', 'core::slice::ascii::<impl [u8]>::to_ascii_uppercase', 'core::num::<impl u8>::to_ascii_uppercase',
+             'core::slice::ascii::<impl [u8]>::make_ascii_uppercase')
+    bad = []
+    n = 0
+    for gp, fn in F.fns.items():
+        if fn.crate != 'quandary' or '::tests::' in gp:
+            continue
+        for b, t in fn.calls():
+            if callee_name(t) in prims:
+                n += 1
+                if not gp.startswith(allowed_prefixes):
+                    bad.append('%s (%s)' % (gp, fn.where(b)))
+    R.require(not bad and n >= 3, 'case-folding', 'name|octet-case-folding-only-in-labels', '', 'the %d octet-level case-folding calls are all in Label / the label scan / LowercaseName' % n,
+              'octets are compared or folded case-insensitively outside the name-label code: %s -- data that is not a domain name (RDATA integers, lengths) would be treated as equal up to ASCII case' % bad)
